@@ -57,6 +57,12 @@ LATTICES = {
     "tet": dict(kmax=None, real_lattice=[[2.5, 0, 0], [0, 2.5, 0], [0, 0, 3.1]]),
     "hex": dict(kmax=None, recip_lattice=[[2.0, 0, 0], [-1.0, SQ3, 0], [0, 0, 2.4]]),
     "tric": dict(kmax=None, real_lattice=[[3.0, 0.3, 0.6], [0.9, 2.7, -0.3], [-0.6, 0.75, 2.4]]),
+    # lattices whose finite-difference shells have another structure: a tetragonal cell whose 4-vector in-plane shell is
+    # not returned as adjacent (b,-b) pairs, a bcc real lattice (12-vector shell), and a triclinic cell
+    # (a,b,c = 3.8,4.8,3.6; angles 114,83,94) whose B1 solution contains a shell with a NEGATIVE weight
+    "tet14": dict(kmax=None, real_lattice=[[2.5, 0, 0], [0, 2.5, 0], [0, 0, 3.5]]),
+    "bcc": dict(kmax=None, real_lattice=[[-1.5, 1.5, 1.5], [1.5, -1.5, 1.5], [1.5, 1.5, -1.5]]),
+    "tric_neg": dict(kmax=None, real_lattice=[[3.8, 0.0, 0.0], [-0.334831, 4.788307, 0.0], [0.43873, -1.437149, 3.27141]]),
 }
 K_ALPHABET = [("G", (0.0, 0.0, 0.0)), ("g1", (0.1, 0.2, -0.15)), ("g2", (0.3, -0.35, 0.25)),
               ("g3", (-0.4, 0.05, 0.38)), ("g1+G", (1.1, -0.8, 1.85))]
@@ -450,7 +456,7 @@ def cases(tier, seed):
     quick = tier == "quick"
     mats = ("s", "y") if quick else ("s", "x", "y", "z")
     dks = (1e-3, 1e-4) if quick else (1e-3, 1e-4, 1e-2)
-    lats = ("cubic1", "cubic2", "tet", "hex") if quick else ("cubic1", "cubic2", "tet", "hex", "tric")
+    lats = ("cubic1", "cubic2", "tet", "hex") if quick else ("cubic1", "cubic2", "tet", "hex", "tric", "tet14", "bcc", "tric_neg")
     monos = sorted([p for p in itertools.product(range(5), repeat=3) if sum(p) <= 4], key=lambda p: (sum(p), p))
     for p in monos:
         for mat in mats:
@@ -459,7 +465,8 @@ def cases(tier, seed):
                     for dk in dks:
                         yield {"kind": "der", "ham": ["mono", list(p), mat], "lat": lat, "coords": coords, "dk": dk}
     for name in MODELS:
-        for lat in (lats + ("tric",) if quick else lats):     # the triclinic lattice is in quick for the composite models
+        # the triclinic and the 'other shell structure' lattices are in quick for the composite models
+        for lat in ((lats + ("tric", "tet14", "bcc", "tric_neg")) if quick else lats):
             for coords in ("cart", "red"):
                 for dk in dks:
                     yield {"kind": "tab", "ham": ["model", name], "lat": lat, "coords": coords, "dk": dk}
